@@ -92,7 +92,10 @@ pub fn after_call(
         _ => {}
     }
     // C14 in situ: the library's persisted index never exceeds what is durable with matching terms
-    if post.persisted > pre.persisted || matches!(op, Op::Advance | Op::AdvanceAppend | Op::OnPersistReady(_)) {
+    if post.persisted > pre.persisted
+        || post.committed > pre.committed
+        || matches!(op, Op::Advance | Op::AdvanceAppend | Op::OnPersistReady(_))
+    {
         let p = post.persisted;
         let t = m.g.per[v].shadow.term(p);
         let below_shadow = p < m.g.per[v].shadow.base_index;
@@ -103,6 +106,26 @@ pub fn after_call(
             None => p <= s.dur.snap_index || (below_shadow && p <= s.dur.last_index()),
         });
         m.stats.inc("c14.persisted_vs_durable_checks");
+        if !ok && post.apply_limit == 0 && post.committed >= p && post.applied < p && t.is_some() {
+            // the same state seen from the Ready contract: the entry at the (wrongly advanced)
+            // persisted index is committed and not yet applied, so the very next `ready()` - a call
+            // the application may make at any time - hands it out although it was never reported
+            // persisted (and is not on disk)
+            m.violation(
+                "C07",
+                "persisted-only",
+                "unpersisted-entry-due-for-handoff".into(),
+                format!(
+                    "node {}: after {} the entry at index {} (term {:?}) is committed, unapplied and counted as persisted, but the application never reported it persisted and it is not in the durable image",
+                    id,
+                    op.short(),
+                    p,
+                    t
+                ),
+                id,
+                step,
+            );
+        }
         if !ok {
             m.violation(
                 "C14",
